@@ -13,6 +13,7 @@
 #define ENV_C06_PDU_H
 #include "impl/hash_impl.h"
 
+typedef int (*c06_calc_fn)(const void*, int, const char*, KSI_DataHash**);
 /* ---- ghost state of pdu_verifyHmac ---- */
 int g_vh_calc_calls;                 /* number of calls of the call-back */
 const void *g_vh_calc_pdu;           /* its arguments */
@@ -66,21 +67,46 @@ void KSI_DataHash_free(KSI_DataHash *hsh) {
 const char *KSI_getHashAlgorithmName(KSI_HashAlgorithm id) { return "alg"; }
 
 /* ---- ghost state of the MAC computation (KSI_*Pdu_calculateHmac, pdu_calculateHmac, pdu_calculateHmac_v2) ---- */
-int g_ser_calls;                     /* KSI_TlvTemplate_serializeObject */
-const void *g_ser_obj[2]; unsigned g_ser_tag[2]; const KSI_TlvTemplate *g_ser_tmpl[2]; int g_ser_res[2];
-unsigned char *g_ser_buf[2]; size_t g_ser_len[2];
+/* (one struct, so that the frame condition of the contracts is a single target: dfcc's cost grows with the
+ *  number of assigns targets times the number of assignments) */
 #ifndef C06_SER_MAX
 #define C06_SHADOW 1
 #else
 #define C06_SHADOW C06_SER_MAX
 #endif
-unsigned char g_ser_shadow[2][C06_SHADOW];   /* copy of the serialized bytes (bounded v1 job only) */
-int g_hl_calls; int g_hl_alg; unsigned g_hl;      /* KSI_getHashLength: arbitrary but fixed value g_hl */
-int g_mac_calls;                     /* KSI_HMAC_create */
-KSI_CTX *g_mac_ctx; int g_mac_alg; const char *g_mac_key; const unsigned char *g_mac_data; size_t g_mac_len;
-int g_mac_res; KSI_DataHash *g_mac_out;
-/* witness for the v1 transcript: index chosen up front, byte seen at that index of the MAC input */
-size_t g_mac_wit; unsigned char g_mac_wit_byte; int g_mac_wit_valid;
+struct c06_calc_ghost {
+	int ser_calls;                     /* KSI_TlvTemplate_serializeObject */
+	const void *ser_obj[2]; unsigned ser_tag[2]; const KSI_TlvTemplate *ser_tmpl[2]; int ser_res[2];
+	unsigned char *ser_buf[2]; size_t ser_len[2];
+	unsigned char ser_shadow[2][C06_SHADOW];   /* copy of the serialized bytes (bounded v1 jobs only) */
+	int hl_calls; int hl_alg;          /* KSI_getHashLength (returns the arbitrary but fixed g_hl) */
+	int mac_calls;                     /* KSI_HMAC_create */
+	KSI_CTX *mac_ctx; int mac_alg; const char *mac_key; const unsigned char *mac_data; size_t mac_len;
+	int mac_res; KSI_DataHash *mac_out;
+	unsigned char mac_wit_byte; int mac_wit_valid;   /* byte of the MAC input seen at the witness index */
+} g_c06;
+unsigned g_hl;                         /* inputs chosen by the harness */
+size_t g_mac_wit;
+#define g_ser_calls g_c06.ser_calls
+#define g_ser_obj g_c06.ser_obj
+#define g_ser_tag g_c06.ser_tag
+#define g_ser_tmpl g_c06.ser_tmpl
+#define g_ser_res g_c06.ser_res
+#define g_ser_buf g_c06.ser_buf
+#define g_ser_len g_c06.ser_len
+#define g_ser_shadow g_c06.ser_shadow
+#define g_hl_calls g_c06.hl_calls
+#define g_hl_alg g_c06.hl_alg
+#define g_mac_calls g_c06.mac_calls
+#define g_mac_ctx g_c06.mac_ctx
+#define g_mac_alg g_c06.mac_alg
+#define g_mac_key g_c06.mac_key
+#define g_mac_data g_c06.mac_data
+#define g_mac_len g_c06.mac_len
+#define g_mac_res g_c06.mac_res
+#define g_mac_out g_c06.mac_out
+#define g_mac_wit_byte g_c06.mac_wit_byte
+#define g_mac_wit_valid g_c06.mac_wit_valid
 
 #ifdef C06_CALC_STUBS
 int KSI_TlvTemplate_serializeObject(KSI_CTX *ctx, const void *obj, unsigned tag, int isNc, int isFwd,
